@@ -124,7 +124,8 @@ class Eq(Family):
             if comp == "rational":
                 rational = True
             sh = rand_shape(rng, kind, rational)
-            c = {"shape": sh, "comp": comp, "precision": None, "how": "zero", "normalize": True, "meta": None, "meta_b": None}
+            c = {"shape": sh, "comp": comp, "precision": None, "how": "zero", "normalize": True, "meta": None, "meta_b": None,
+                 "idiom": comp == "weight" and (i // 66) % 2 == 0}
             if (i // 3) % 2 == 1 or comp == "none":
                 # small non-zero ids that coincide with a degree, a size or the parametric dimension (CPython shares small ints)
                 cand = [len(sh["degs"]), sh["degs"][0], sh["sizes"][0], sh["degs"][-1], sh["sizes"][-1]] + [rng.randint(1, 6)]
@@ -186,6 +187,12 @@ class Eq(Family):
                 elif comp == "knot":
                     sh2["kvs"][c["dir"]][c["idx"]] = sh["kvs"][c["dir"]][c["idx"]] + d
                 b = build(sh2, c["precision"], c["normalize"], meta=c.get("meta_b"))
+                if comp == "weight" and c.get("idiom") and sh["cp"][c["pt"]][-1] + d > 0:
+                    # the weight is changed on a deep copy through the read-modify-write idiom of the weights view
+                    b = copy.deepcopy(a)
+                    w = b.weights
+                    w[c["pt"]] = sh["cp"][c["pt"]][-1] + d
+                    b.weights = w
                 if comp == "degree":
                     if sh["kind"] == "curve":
                         b.degree = sh["degs"][0] + 1
@@ -279,6 +286,9 @@ class Eq(Family):
             return "deepcopy: id / name / opt / kind of the copy differ from the source (metadata %s)" % (c.get("meta"),)
         if o["eq_ab"] != o["eq_ba"]:
             return "symmetric: a == b is %r but b == a is %r" % (o["eq_ab"], o["eq_ba"])
+        if c.get("idiom") and c["comp"] == "weight" and c["how"] in ("double", "big") and o["eq_ab"]:
+            return "weight-idiom: a weight of a deep copy was changed by %s (tolerance %s) through w = copy.weights; w[i] = ...; copy.weights = w, the shapes still compare equal" % (
+                delta_value(self._tol(c), c["how"]), self._tol(c))
         if "def_cp2" in o:
             if o["def_a2"] != o["def_a"]:
                 diff = [k for k in o["def_a"] if o["def_a"][k] != o["def_a2"][k]]
